@@ -265,6 +265,74 @@ Theorem C09_wcomm_register_after_write_refuted :
 Proof. exact reg_after_write_refuted. Qed.
 Print Assumptions C09_wcomm_register_after_write_refuted.
 
+(* Registration CONCURRENT with release.  AddStream / Stream / ReleaseStreams each take effect
+   atomically (under the manager's lock), so overlapping calls take effect in some order.  For EVERY
+   order - every sequence of operations -, once every session has been released a last time: every
+   stream that was ever registered (AddStream for a free slot) has been closed and the registry is
+   empty.  A stream that a late sender registers while its session is being released is therefore
+   either closed by that release or by the next one of the same session id - never lost. *)
+Theorem C09_registered_streams_always_closed : forall S P ops, adds_below S P ops = true ->
+  let st := sm_exec P sst0 (ops ++ release_all S) in
+  (forall x, In x (accepted P sst0 ops) -> 1 <= snd st x) /\
+  (forall s p, fst st s p = None).
+Proof. exact srace_model. Qed.
+Print Assumptions C09_registered_streams_always_closed.
+
+(* the judge of the srace cases accepts what the model shows and means it *)
+Theorem C09_srace_ok_model : forall S P X ops, adds_below S P ops = true -> all_accepted P X ops = true ->
+  let st := sm_exec P sst0 (ops ++ release_all S) in
+  srace_ok (cvec X (snd st)) (snap S P (fst st)) = true.
+Proof. exact srace_ok_model. Qed.
+Print Assumptions C09_srace_ok_model.
+
+Theorem C09_srace_ok_sound : forall closed left, srace_ok closed left = true ->
+  (forall c, In c closed -> 1 <= c) /\ (forall row o, In row left -> In o row -> o = None).
+Proof. exact srace_ok_sound. Qed.
+Print Assumptions C09_srace_ok_sound.
+
+(* "Close a snapshot of the session's streams without holding the lock, forget the session
+   afterwards" is refuted: a stream registered while the snapshot is being closed is never closed. *)
+Theorem C09_release_late_forget_refuted :
+  let st := sm_exec 3 sst0 [OAdd 0 1 0] in
+  let st' := sm_release_late_forget 3 (fst st) 0 [OAdd 0 2 1] st in
+  let fin := sm_exec 3 st' (release_all 1) in
+  srace_ok (cvec 2 (snd fin)) (snap 1 3 (fst fin)) = false.
+Proof. exact late_forget_refuted. Qed.
+Print Assumptions C09_release_late_forget_refuted.
+
+(* A live session keeps duplicates out HOWEVER LONG IT LIVES: the pending entry carries no time.
+   Once call t runs, then after any further schedule in which t's session does not end (whatever the
+   other calls do, however many steps pass - in particular a retry phase that outlives TssTimeout)
+   t still runs and no other call for the same session id does. *)
+Theorem C09_live_session_keeps_out_duplicates : forall (sid : nat -> nat) sched1 sched2 t u,
+  pcs (exec New sid sched1 (init New)) t = PRun ->
+  Forall (fun e => e <> Fin t) sched2 ->
+  sid u = sid t -> u <> t ->
+  let st := exec New sid (sched1 ++ sched2) (init New) in
+  pcs st t = PRun /\ pcs st u <> PRun.
+Proof. exact live_session_keeps_out_duplicates. Qed.
+Print Assumptions C09_live_session_keeps_out_duplicates.
+
+Theorem C09_long_ok_sound : forall fl da ml pa ru, long_ok fl da ml pa ru = true ->
+  (fl = true -> da = false) /\ ml <= 1 /\ pa = false /\ ru = true.
+Proof. exact long_ok_sound. Qed.
+Print Assumptions C09_long_ok_sound.
+
+(* Non-vacuity of the srace and long cases: a session with one stream; a second stream registered
+   after (or, second line, before) its release is closed by the last release; the duplicate of the
+   canonical long schedule is refused and the judge accepts that, and rejects an admitted duplicate. *)
+Example C09_srace_long_nonvacuous :
+  let ops := [OAdd 0 1 0; ORelease 0; OAdd 0 2 1] in
+  let ops' := [OAdd 0 1 0; OAdd 0 2 1; ORelease 0] in
+  adds_below 2 8 ops = true /\ all_accepted 8 2 ops = true /\
+  cvec 2 (snd (sm_exec 8 sst0 (ops ++ release_all 2))) = [1; 1] /\
+  cvec 2 (snd (sm_exec 8 sst0 (ops' ++ release_all 2))) = [1; 1] /\
+  srace_ok [1; 0] [] = false /\ srace_ok [1; 1] [[None; Some 1]] = false /\
+  long_dup_refused = true /\
+  long_ok true false 1 false true = true /\ long_ok true true 2 false true = false /\
+  long_ok true true 1 false true = false /\ long_ok true false 1 true true = false.
+Proof. vm_compute. repeat split. Qed.
+
 (* Non-vacuity of the tear and commw cases: two processes, the teardown parked inside CloseSession
    (the request is refused) and inside Stop of process 1 (admitted, session closed, process 0
    stopped); a session whose first stream fails to open, whose second gets a failing first write,
